@@ -154,7 +154,7 @@ func genHeaders(pool []string, single map[string]bool) *rapid.Generator[[][2]str
 			}
 			if ln == "cookie" {
 				// RFC 6265 cookie-string
-				v = rapid.SampledFrom([]string{"sid=1", "a=1; b=2", "k=\"v\"", "a=b=c", "t=a%20b", "SID=31d4d96e407aad42; lang=en-US", "e=", "a=1;b=2"}).Draw(t, "cookie")
+				v = rapid.SampledFrom([]string{"sid=1", "a=1; b=2", "k=\"v\"", "a=b=c", "t=a%20b", "SID=31d4d96e407aad42; lang=en-US", "e="}).Draw(t, "cookie")
 			}
 			if v == "" && !strings.HasPrefix(ln, "x-") && !strings.HasPrefix(ln, "x_") {
 				// an empty field value is only meaningful for extension headers; the standard ones used here have
@@ -621,7 +621,7 @@ func httpExchange(rt *rapid.T, g *httpRig, idx int, req *httpReq, resp *httpResp
 	fail := func(sig, format string, a ...interface{}) {
 		scope := pairName
 		switch {
-		case strings.Contains(sig, "-default-content-type-invented") && (g.down == "Http1" || g.up == "Http1"):
+		case (strings.Contains(sig, "-default-content-type-invented") || sig == "request-cookie-value-quotes-stripped") && (g.down == "Http1" || g.up == "Http1"):
 			scope = "fasthttp" // fasthttp's header objects report / write a default Content-Type on either side
 		case strings.HasPrefix(sig, "request-default-user-agent-invented"), strings.HasPrefix(sig, "request-not-forwarded:h2-upstream"):
 			scope = "up=" + g.up // upstream-side codec
@@ -804,6 +804,8 @@ func checkHeaders(fail0 func(string, string, ...interface{}), what string, cross
 			sorted := func(s []string) []string { c := append([]string(nil), s...); sortS(c); return c }
 			if reflect.DeepEqual(sorted(w), sorted(gv)) {
 				fail(what+"-header-values-reordered"+rep, "%q values arrived in another order: sent %s, arrived %s", name, shortHdr(want), shortHdr(got))
+			} else if name == "cookie" && what == "request" && len(w) == 1 && len(gv) == 1 && strings.ReplaceAll(w[0], "\"", "") == gv[0] {
+				fail("request-cookie-value-quotes-stripped", "the double quotes of a quoted cookie-value were removed: sent %s, arrived %s", shortHdr(want), shortHdr(got))
 			} else if name == "date" && what == "response" {
 				fail("response-date-replaced", "the upstream's Date arrived replaced: sent %s, arrived %s", shortHdr(want), shortHdr(got))
 			} else {
